@@ -357,6 +357,14 @@ def fam_ids():
                 yield case("ids", coll_spec([gene_spec([t0, t1], gtype=gt)]), genome, "chrom", True, True, biotypes=[gt, t0t, t1t])
 
 
+# ---- family: big (coordinates of seven and more digits; no parent: the writer needs no sequence for the rows) --------------------------
+def fam_big():
+    for off in (999_990, 1_000_400, 12_345_678, 2 ** 29 + 5):
+        for strand in "+-":
+            t = tx_spec(((off + 1, off + 4), (off + 6, off + 10)), strand, (1, 7), 1, pid="p0", product="prod0")
+            yield case("big", coll_spec([gene_spec([t])]), "", None, True, False, offset=off)
+
+
 # ---- family: fasta (sequence lengths around the line width, several sequences in one file) ------------------------------------------
 def fam_fasta():
     for L in (12, 59, 60, 61, 64):
@@ -503,6 +511,7 @@ def world(tier):
         yield from fam_strings(strings(), all_positions_full=True)
         yield from fam_long(PATTERNS_ALL, "ends")
         yield from fam_trunc(7, 3)
+    yield from fam_big()
     yield from fam_shared()
     yield from fam_embedded()
     yield from fam_reserved()
